@@ -41,6 +41,9 @@ func (rig *tRig) shareStream(other *tRig) {
 	rig.frame0, rig.t0, rig.period, rig.truth, rig.signed = other.frame0, other.t0, other.period, other.truth, other.signed
 }
 
+// tRigCountTriggers: run the real trigger-rate counting (concrete times only).
+var tRigCountTriggers bool
+
 func newTRigBase(nchan, npre, nsamp int, restored []FullTriggerState) *tRig {
 	rig := &tRig{nchan: nchan, npre: npre, nsamp: nsamp}
 	rig.pub = make(chan []*DataRecord, 256)
@@ -50,7 +53,9 @@ func newTRigBase(nchan, npre, nsamp int, restored []FullTriggerState) *tRig {
 	vClockConcrete()
 	// analysis values and trigger-rate counting are floating point and not the subject here
 	vStub("(*" + tRigFullName + ".DataStreamProcessor).AnalyzeData")
-	vStub("(*" + tRigFullName + ".TriggerCounter).countNewTriggers")
+	if !tRigCountTriggers {
+		vStub("(*" + tRigFullName + ".TriggerCounter).countNewTriggers")
+	}
 	ds := new(AnySource)
 	ds.nchan = nchan
 	ds.name = "verif"
